@@ -49,9 +49,9 @@ def run_verus_unit(pid, u, tier, log):
     defines = set(u.get("defines", []))
     if tier == "thorough":
         defines.add("THOROUGH")
-    meta = unitgen.generate(u["unit"], tpl, outdir, canary=False, defines=defines)
+    meta = unitgen.generate(u["unit"], tpl, outdir, canary=False, defines=defines, subst=u.get("subst"))
     rl = u.get("rlimit_thorough", u.get("rlimit", 50)) if tier == "thorough" else u.get("rlimit", 50)
-    res = verusrun.run_unit(meta, rlimit=rl, extra=u.get("extra"), timeout=u.get("timeout", 1800))
+    res = verusrun.run_unit(meta, rlimit=rl, extra=u.get("extra"), timeout=u.get("timeout", 1800), threads=u.get("threads", 4))
     res["meta"] = meta
     res["unit"] = u["unit"]
     log(f"[verus] unit {u['unit']}: {res['status']} verified={res['verified']} errors={res['errors']} "
@@ -72,8 +72,8 @@ def run_verus_unit(pid, u, tier, log):
                     res["reason"] = f"vacuity guard: no verification result for contracted function {b['path']}"
         # vacuity guard (b): canary copy must fail, and only in canary-carrying functions
         if u.get("canary") and res["status"] == "verified":
-            cmeta = unitgen.generate(u["unit"], tpl, outdir, canary=True, defines=defines)
-            cres = verusrun.run_unit(cmeta, rlimit=rl, extra=u.get("extra"), timeout=u.get("timeout", 1800))
+            cmeta = unitgen.generate(u["unit"], tpl, outdir, canary=True, defines=defines, subst=u.get("subst"))
+            cres = verusrun.run_unit(cmeta, rlimit=rl, extra=u.get("extra"), timeout=u.get("timeout", 1800), threads=u.get("threads", 4))
             nfail = len([f for f in cres["failures"] if not f.get("undecided")])
             res["canary"] = {"status": cres["status"], "failed_obligations": [f["obligation"] for f in cres["failures"]][:10]}
             log(f"[verus] canary of {u['unit']}: {cres['status']} ({nfail} failing obligations, expected >= 1)")
@@ -137,10 +137,19 @@ def main(argv):
     failures, undecided = [], []
     verus_results, kani_results = [], []
     try:
-        for u in cfg.get("verus", []):
-            if u.get("tier") == "thorough" and tier != "thorough":
-                continue
-            r = run_verus_unit(pid, u, tier, log)
+        from concurrent.futures import ThreadPoolExecutor
+        units = [u for u in cfg.get("verus", []) if not (u.get("tier") == "thorough" and tier != "thorough")]
+
+        def job(u):
+            try:
+                return run_verus_unit(pid, u, tier, log)
+            except Undecided as e:
+                return {"status": "undecided", "reason": str(e), "unit": u["unit"], "verified": 0, "errors": 0,
+                        "failures": [], "functions": [], "smt_ms": 0, "wall_s": 0, "cmd": ""}
+
+        with ThreadPoolExecutor(max_workers=int(os.environ.get("VERIF_JOBS", "8"))) as ex:
+            results = list(ex.map(job, units))
+        for u, r in zip(units, results):
             verus_results.append(r)
             if r["status"] == "undecided":
                 undecided.append(f"verus unit {u['unit']}: {r.get('reason', '')}")
